@@ -191,6 +191,19 @@ def flatten(x):
     return out
 
 
+class _Lazy(dict):
+    def __init__(self, f):
+        dict.__init__(self)
+        self.f = f
+
+    def __missing__(self, k):
+        v = self[k] = self.f(k)
+        return v
+
+    def get(self, k, default=None):
+        return self[k]
+
+
 class _Box(object):
     def __init__(self, value):
         self.value = value
@@ -546,9 +559,7 @@ def _evaluate(task):
         nested_t = NestedJsonRenderer().render(tmsg.template_data.value)
     except Exception as e:  # noqa
         raise core.MachineryError('rendering of the tagged copy fails: %r' % (e,))
-    impl_t = {}
-    for e in exprs:
-        impl_t[e] = impl_query(tmsg, e)
+    impl_t = _Lazy(lambda e: impl_query(tmsg, e))    # evaluated where an oracle looks at it
     views = [('', impl, nested, td.decoded_values_all_subsets),
              ('on the copy with the values replaced by their flat positions: ', impl_t, nested_t,
               tmsg.template_data.value.decoded_values_all_subsets)]
@@ -635,6 +646,8 @@ def _evaluate(task):
             info['ordinary'] = True
         failed = set()
         for vname, res, nst, vals in views:
+            if not (kind == 'ca' or ordinary or (sel and body in impl and not isinstance(impl[body], str))):
+                break
             rv = res[e]
             # oracle 1: evaluation over the implementation's own nested JSON
             if kind == 'ca' and 'json-eval' not in failed:
@@ -654,7 +667,7 @@ def _evaluate(task):
                     finding('oracle', 'bare-id', '%sflattened query %s, flat data filtered by label %s' % (vname, show(got), show(want)), e)
             # oracle 3: the selector restricts the result of the unselected query
             if sel and 'selector' not in failed:
-                r0 = res.get(body)
+                r0 = res.get(body) if body in impl else None
                 if r0 is not None and not isinstance(r0, str):
                     if isinstance(selx, str):
                         want = selx
@@ -774,12 +787,14 @@ def absorb(ctx, task, res, ids, tag, name=None):
         if q.get('ordinary'):
             ctx.count('bare-id-ordinary')
         if q.get('cell'):
-            kind_, lt, n_ = q['cell'].split('|')[:3]
+            kind_, lt, n_, cs = q['cell'].split('|')[:4]
             full = q['cell'].endswith('|full')
             ctx.count('slice-site:%s n=%s%s' % (kind_, n_, ' (whole grid)' if full else ''))
             ctx.count('slice-site-list:%s %s' % (kind_, lt))
             if full:
-                GRID_DONE.setdefault((kind_, int(n_)), set()).add(q['q'])
+                # the grid relative to n contains the grid relative to every smaller number of matches met at the site
+                for c in cs.split(','):
+                    GRID_DONE.setdefault((kind_, int(c)), set()).add(q['q'])
     done = set()
     for f in res['findings']:
         k = (f['kind'], f['stage'], bool(f.get('empty_selection_on_compressed')))
@@ -847,13 +862,13 @@ def run(ctx):
     rseqs = sorted(G.repeat_sequences(tb, tdd).values())
     fam = []    # (Msg, task options)
     # whole grids (quick tier): `/` on the top level, the blocks of one replication kind and sequence members; `.` on
-    # the attribute lists of 222 and of one marker operator; `>` on the top level, that block kind and the 222
-    # attributes; in one of the two storage forms; the other sites and forms get a sample of the grid.  The choices
-    # rotate with the seed; the thorough tier takes every list type in both forms.
+    # the attribute lists made by one bitmap operator; `>` on the top level and those attribute lists; in one of the
+    # two storage forms; the other sites and forms get a sample of the grid.  The choices rotate with the seed; the
+    # thorough tier takes every list type in both forms.
     block = ('fixed-block', 'delayed-block')[ctx.seed % 2]
-    marker = (223, 224, 225, 232)[ctx.seed % 4]
-    whole = {'grid:top': (['top'], True), 'grid:' + block: ([block, 'factor'], True), 'grid:sequence': (['sequence'], False),
-             'grid:attributes-222': (['attributes'], True), 'grid:attributes-%d' % marker: (['attributes'], False)}
+    marker = (222, 223, 224, 225, 232)[ctx.seed % 5]
+    whole = {'grid:top': (['top'], True), 'grid:' + block: ([block, 'factor'], False), 'grid:sequence': (['sequence'], False),
+             'grid:attributes-%d' % marker: (['attributes'], True)}
     for k, sh in enumerate(G.grid_shapes(rng, tb, tdd)):
         for comp in (False, True):
             n = 2 if quick else rng.randint(2, 3)
@@ -863,7 +878,7 @@ def run(ctx):
                 lts = []
             fam.append((G.Msg(ids, per, n, comp, sh[2]),
                         dict(budget=10, compiled=True, weight=10 ** 6 if lts else 10 ** 5, parts=4 if lts else 1,
-                             grid=dict(full_lts=lts, full_desc=desc, per_cell=1, selectors=0.02, zero_sites=2, max_sites=30, sample=20))))
+                             grid=dict(full_lts=lts, full_desc=desc, per_cell=1, selectors=0.02, zero_sites=2, max_sites=24, sample=12))))
     for n in range(1, 7):
         for comp in ((False, True) if not quick else (bool((n + ctx.seed) % 2),)):
             ids, per, tag = G.bitmap_case(rng, tb, class33, n, rseqs)
@@ -874,7 +889,7 @@ def run(ctx):
         n = 2 + k % 5
         ids, per, tag = G.bitmap_case(rng, tb, class33, n, rseqs)
         fam.append((G.Msg(ids, per, n, rng.random() < 0.2, tag),
-                    dict(budget=30, compiled=rng.random() < 0.5, sweep=True,
+                    dict(budget=24, compiled=rng.random() < 0.5, sweep=True,
                          grid=dict(full=False, max_sites=10, sample=10, selectors=0.3, zero_sites=1))))
     for k in range(30 if quick else 500):
         ids, pool = G.pool_template(rng, tb, rseqs)
